@@ -55,6 +55,10 @@ func (api *API) mapEncodeBasedOnType(
 	switch value.Kind() {
 	case reflect.Ptr:
 		if valueBigInt, ok := valueI.(*big.Int); ok {
+			if valueBigInt == nil {
+				return nil, ierrors.Wrap(serializer.ErrUint256Nil, "failed to encode math big int")
+			}
+
 			return EncodeUint256(valueBigInt), nil
 		}
 
